@@ -45,6 +45,7 @@ class WireTracker(Monitor):
     def __init__(self, sc):
         super().__init__(sc)
         self.outbuf = {}
+        self.inbuf = {}
 
     def events(self):
         out = []
@@ -52,10 +53,14 @@ class WireTracker(Monitor):
             t, kind = rec[0], rec[1]
             if kind == "env_deliver":
                 sid, data = rec[2], rec[3]
+                out.append(("bytes", t, sid, len(data)))
+                data = self.inbuf.pop(sid, b"") + data
                 try:
                     raws, rest = rc.split_frames(data)
                 except rc.RefError:
                     raws, rest = [], b""
+                if rest:
+                    self.inbuf[sid] = rest
                 for r in raws:
                     try:
                         out.append(("in", t, sid, rc.Frame(r)))
@@ -678,12 +683,15 @@ class WatchdogMonitor(WireTracker):
         evs = self.events()
         for ev in evs:
             k = ev[0]
-            if k == "in":
-                t, sid, f = ev[1], ev[2], ev[3]
+            if k == "bytes":
+                t, sid = ev[1], ev[2]
                 st = self.sockstate(sid)
                 if st["rx"] != t:
                     st["rx_prev"] = st["rx"]
                 st["rx"] = t
+            elif k == "in":
+                t, sid, f = ev[1], ev[2], ev[3]
+                st = self.sockstate(sid)
                 s = socks.get(sid)
                 if s is not None and s.kind == "dialled" and f.h.code == 257 and not f.h.is_request and f.result_code == 2001:
                     st["ready"] = True
@@ -787,3 +795,305 @@ class WatchdogMonitor(WireTracker):
         return tuple(sorted((sid, st["ready"], age(st["rx"]), age(st["rx_prev"]) if st["rx"] == now else -2, age(st["await"]), st["dwa_at"] is not None, st["closed"],
                              st["env_closed"], st["leaving"], bool(st["must_close"]), bool(st.get("ambiguous")), st.get("last_dwa_in") == now)
                             for sid, st in self.st.items()))
+
+
+class GroundTruth(WireTracker):
+    """Shared bookkeeping of what the environment knows about every connection (used by C12/C13/C09)."""
+
+    def __init__(self, sc):
+        super().__init__(sc)
+        self.c = {}     # sid -> dict
+
+    def conn(self, sid):
+        if sid not in self.c:
+            self.c[sid] = {"kind": None, "peer": None, "identified": False, "ce_ok": False, "node_closed": None, "env_closed": None,
+                           "dpr_in": False, "dpr_out": False, "established": None, "connect_t": None, "plan": None, "failed": False}
+        return self.c[sid]
+
+    def absorb(self, ev):
+        sc = self.sc
+        socks = {s.fs.sid: s for s in sc.socks}
+        k = ev[0]
+        if k == "env_accept":
+            g = self.conn(ev[2])
+            g["kind"] = "accepted"
+            g["established"] = ev[1]
+        elif k == "connect":
+            t, sid, addr, plan = ev[1], ev[2], ev[3], ev[4]
+            g = self.conn(sid)
+            g["kind"] = "dialled"
+            g["connect_t"] = t
+            g["plan"] = plan
+            for pc in sc.cfg.get("peers", []):
+                if pc.get("ips") and pc["ips"][0] == addr[0]:
+                    g["peer"] = pc["name"]
+            if plan == "ok":
+                g["established"] = t
+            elif plan == "refused":
+                g["failed"] = True
+                g["node_closed"] = g["node_closed"] if g["node_closed"] is not None else t
+        elif k == "env_resolve":
+            g = self.conn(ev[2])
+            if ev[3]:
+                g["established"] = ev[1]
+            else:
+                g["failed"] = True
+        elif k in ("env_eof", "env_reset"):
+            self.conn(ev[2])["env_closed"] = ev[1]
+        elif k == "close":
+            g = self.conn(ev[2])
+            if g["node_closed"] is None or g["plan"] == "refused":
+                g["node_closed"] = ev[1]
+        elif k == "in":
+            t, sid, f = ev[1], ev[2], ev[3]
+            g = self.conn(sid)
+            s = socks.get(sid)
+            if f.h.code == 257 and f.h.is_request and s is not None and g["kind"] == "accepted":
+                g["cer"] = s.cer_variant
+                g["cer_host"] = s.host
+            if f.h.code == 257 and not f.h.is_request and g["kind"] == "dialled" and s is not None and s.cea_variant == "ok":
+                g["ce_ok"] = True
+                g["identified"] = True
+            if f.h.code == 282 and f.h.is_request:
+                g["dpr_in"] = True
+        elif k == "out":
+            t, sid, f = ev[1], ev[2], ev[3]
+            g = self.conn(sid)
+            if f.h.code == 257 and not f.h.is_request and f.result_code == 2001 and g["kind"] == "accepted":
+                g["ce_ok"] = True
+                g["identified"] = True
+                g["peer"] = g.get("cer_host")
+            if f.h.code == 282 and f.h.is_request:
+                g["dpr_out"] = True
+
+    def live(self, g):
+        return g["established"] is not None and g["node_closed"] is None and g["env_closed"] is None and not g["failed"]
+
+    def open_for_node(self, g):
+        """The node has not closed it (it may not have noticed a peer close yet - it has, at quiescence)."""
+        return g["node_closed"] is None and not g["failed"]
+
+
+class ReconnectMonitor(GroundTruth):
+    """C12: DPR => DPA 2001, no routing, reason DPR; reconnect policy; never two self-initiated connections."""
+
+    def __init__(self, sc):
+        super().__init__(sc)
+        self.lost = {}          # peer name -> (time of loss, loss followed a DPR)
+        self.dpr_pending = {}   # sid -> request frame awaiting DPA
+        self.first_connect_done = set()
+
+    def peer_cfg(self, name):
+        for pc in self.sc.cfg.get("peers", []):
+            if pc["name"] == name:
+                return pc
+        return None
+
+    def step(self):
+        sc = self.sc
+        nw = sc.nw
+        node = nw.node
+        vs = []
+        stopping = getattr(node, "_stopping", False)
+        for ev in self.events():
+            k = ev[0]
+            before_closed = {sid: g["node_closed"] for sid, g in self.c.items()}
+            self.absorb(ev)
+            if k == "in":
+                t, sid, f = ev[1], ev[2], ev[3]
+                g = self.conn(sid)
+                if f.h.code == 282 and f.h.is_request and g["ce_ok"] and self.live(g):
+                    self.dpr_pending[sid] = f
+            elif k == "out":
+                t, sid, f = ev[1], ev[2], ev[3]
+                g = self.conn(sid)
+                if f.h.code == 282 and not f.h.is_request and sid in self.dpr_pending:
+                    if f.result_code != 2001:
+                        vs.append((f"dpr:DPA-result-{f.result_code}-instead-of-2001", f"socket {sid}: {f!r}"))
+                    self.dpr_pending.pop(sid)
+                    g["dpa_sent"] = True
+                if f.h.is_request and f.h.code not in (257, 280, 282) and (g["dpr_in"]):
+                    vs.append(("dpr:request-routed-to-a-connection-after-its-DPR", f"socket {sid}: {f!r}"))
+            elif k in ("close", "env_eof", "env_reset", "env_resolve", "connect"):
+                sid = ev[2]
+                g = self.conn(sid)
+                if g["kind"] == "dialled" or g["identified"]:
+                    name = g["peer"]
+                    lost_now = (k == "close" and before_closed.get(sid) is None) or (k == "connect" and ev[4] == "refused") or \
+                               (k == "env_resolve" and not ev[3])
+                    if lost_now and name is not None:
+                        prev = self.lost.get(name)
+                        self.lost[name] = (ev[1], g["dpr_in"])
+                if k == "connect":
+                    t, addr, plan = ev[1], ev[3], ev[4]
+                    name = g["peer"]
+                    pc = self.peer_cfg(name) if name else None
+                    if pc is None:
+                        vs.append(("reconnect:connect-to-an-address-of-no-configured-peer", f"{addr}"))
+                        continue
+                    first = name not in self.first_connect_done
+                    self.first_connect_done.add(name)
+                    others = [s2 for s2, g2 in self.c.items() if s2 != sid and g2["peer"] == name and g2["kind"] == "dialled" and self.open_for_node(g2)]
+                    if others:
+                        vs.append(("reconnect:two-self-initiated-connections-to-one-peer", f"peer {name}: new socket {sid} while {others} still open"))
+                    any_conn = [s2 for s2, g2 in self.c.items() if s2 != sid and g2["peer"] == name and self.open_for_node(g2) and
+                                (g2["kind"] == "dialled" or g2["identified"])]
+                    if not pc.get("persistent"):
+                        vs.append(("reconnect:non-persistent-peer-dialled", f"peer {name} at {t}"))
+                    if stopping:
+                        vs.append(("reconnect:dialled-while-stopping", f"peer {name} at {t}"))
+                    if any_conn and not others:
+                        vs.append(("reconnect:dialled-although-the-peer-has-a-connection", f"peer {name} at {t}: sockets {any_conn}"))
+                    if not first:
+                        lost = getattr(self, "prev_lost", {}).get(name)
+                        if lost is None:
+                            vs.append(("reconnect:redial-without-a-recorded-loss", f"peer {name} at {t}"))
+                        else:
+                            tl, after_dpr = lost
+                            wait = pc.get("reconnect_wait", 30)
+                            if t - tl < wait:
+                                vs.append(("reconnect:redial-before-reconnect-wait-elapsed", f"peer {name}: lost at {tl}, dialled at {t}, wait {wait}"))
+                            if after_dpr and not pc.get("always_reconnect"):
+                                vs.append(("reconnect:redial-after-DPR-without-always-reconnect", f"peer {name}: lost at {tl} after a DPR, dialled at {t}"))
+            elif k == "reconnect_check":
+                t = ev[1]
+                if stopping:
+                    continue
+                for pc in sc.cfg.get("peers", []):
+                    name = pc["name"]
+                    if not pc.get("persistent") or not pc.get("ips"):
+                        continue
+                    lost = self.lost.get(name)
+                    if lost is None:
+                        continue
+                    tl, after_dpr = lost
+                    has = [s2 for s2, g2 in self.c.items() if g2["peer"] == name and self.open_for_node(g2) and (g2["kind"] == "dialled" or g2["identified"])]
+                    if has:
+                        continue
+                    if after_dpr and not pc.get("always_reconnect"):
+                        continue
+                    if t - tl >= pc.get("reconnect_wait", 30) and tl < t:
+                        self.due = getattr(self, "due", {})
+                        self.due.setdefault(name, (t, tl))
+            self.prev_lost = dict(self.lost) if k != "connect" else getattr(self, "prev_lost", {})
+            if k == "connect":
+                # a connect clears what was due for that peer
+                g = self.conn(ev[2])
+                if getattr(self, "due", None) and g["peer"] in self.due:
+                    self.due.pop(g["peer"])
+                self.prev_lost = dict(self.lost)
+        # quiescent obligations
+        due = getattr(self, "due", {})
+        for name, (t, tl) in list(due.items()):
+            due.pop(name)
+            vs.append(("reconnect:persistent-peer-not-redialled-after-reconnect-wait", f"peer {name}: lost at {tl}, reconnect check at {t}, no connect()"))
+        for sid, f in list(self.dpr_pending.items()):
+            g = self.conn(sid)
+            if self.live(g) and not g.get("reported_nodpa"):
+                g["reported_nodpa"] = True
+                vs.append(("dpr:no-DPA-for-a-DPR-on-a-ready-connection", f"socket {sid}: {f!r}"))
+            self.dpr_pending.pop(sid)
+        for sid, g in self.c.items():
+            if g["dpr_in"] and g["ce_ok"] and g["peer"] and not g.get("reason_checked"):
+                g["reason_checked"] = True
+                peer = node.peers.get(g["peer"])
+                if peer is not None and peer.disconnect_reason != DISCONNECT_REASON_DPR:
+                    vs.append((f"dpr:disconnect-reason-{peer.disconnect_reason}-does-not-record-the-DPR", f"socket {sid} peer {g['peer']}"))
+        return vs
+
+    def state(self):
+        now = self.sc.nw.world.now
+        cap = max([pc.get("reconnect_wait", 30) for pc in self.sc.cfg.get("peers", [])] + [1]) + 2
+        return (tuple(sorted((n, min(cap, int(now - tl)), d) for n, (tl, d) in self.lost.items())),
+                tuple(sorted((sid, g["kind"], g["peer"], g["identified"], g["ce_ok"], g["node_closed"] is not None, g["env_closed"] is not None,
+                              g["dpr_in"], g["failed"], g["established"] is not None) for sid, g in self.c.items())),
+                tuple(sorted(self.first_connect_done)))
+
+
+class TableMonitor(GroundTruth):
+    """C13: peer/connection tables and application readiness are consistent at every quiescent point."""
+
+    def __init__(self, sc):
+        super().__init__(sc)
+        self.had_connection = set()     # peers that had a connection at some earlier quiescent point
+
+    def step(self):
+        sc = self.sc
+        nw = sc.nw
+        node = nw.node
+        for ev in self.events():
+            self.absorb(ev)
+        vs = []
+        fs_by_sid = {s.fs.sid: s.fs for s in sc.socks}
+        conns = dict(node.connections)
+        psocks = dict(node.peer_sockets)
+        # (c) tables agree with the sockets
+        for ident, c in conns.items():
+            fs = psocks.get(ident)
+            if fs is None:
+                vs.append(("tables:connection-without-socket-entry", f"connection {ident} state {c.state:#x}"))
+            elif fs.closed:
+                vs.append(("tables:connection-whose-socket-is-closed-still-listed", f"connection {ident} state {c.state:#x} socket {fs.sid}"))
+            if c.state == 0x1c:
+                vs.append(("tables:closed-connection-still-in-connections", f"connection {ident}"))
+        for ident, fs in psocks.items():
+            if ident not in conns:
+                vs.append(("tables:socket-entry-without-connection", f"ident {ident} socket {fs.sid}"))
+            if fs.closed:
+                vs.append(("tables:closed-socket-still-in-peer_sockets", f"ident {ident} socket {fs.sid}"))
+        listed = {fs.sid for fs in psocks.values()}
+        for sid, g in self.c.items():
+            fs = fs_by_sid.get(sid)
+            if fs is None:
+                continue
+            if g["node_closed"] is None and not g["failed"] and g["env_closed"] is not None and not fs.closed:
+                vs.append(("tables:connection-the-peer-closed-is-still-open-at-quiescence", f"socket {sid}"))
+            if (g["env_closed"] is not None or g["failed"]) and sid in listed:
+                vs.append(("tables:ended-connection-still-listed", f"socket {sid}"))
+        # (a)/(b) peer.connection
+        for name, peer in node.peers.items():
+            pc = peer.connection
+            live = [sid for sid, g in self.c.items() if g["peer"] == name and self.live(g) and (g["kind"] == "dialled" or g["identified"])
+                    and not fs_by_sid[sid].closed]
+            # dialled sockets whose connect is still in progress belong to the peer as well
+            pending = [sid for sid, g in self.c.items() if g["peer"] == name and g["kind"] == "dialled" and g["established"] is None
+                       and self.open_for_node(g) and not fs_by_sid[sid].closed]
+            if pc is not None:
+                self.had_connection.add(name)
+                ident = pc.ident
+                fs = psocks.get(ident)
+                if conns.get(ident) is not pc or pc.state == 0x1c or fs is None or fs.closed:
+                    vs.append(("peer.connection:references-a-connection-that-is-not-live", f"peer {name}: ident {ident} state {pc.state:#x}"))
+                elif fs.sid not in live + pending:
+                    vs.append(("peer.connection:references-a-connection-of-another-peer-or-an-unidentified-one", f"peer {name}: socket {fs.sid}, its own {live + pending}"))
+            elif live:
+                vs.append(("peer.connection:is-None-although-a-live-connection-of-the-peer-exists", f"peer {name}: live sockets {live}"))
+            # (d)
+            if pc is None and name in self.had_connection and (peer.disconnect_reason is None or not peer.last_disconnect):
+                vs.append(("peer:disconnect-reason-or-time-unset-after-removal", f"peer {name}: reason {peer.disconnect_reason} last_disconnect {peer.last_disconnect}"))
+        # (e) application readiness
+        for ai, (app, ac) in enumerate(zip(nw.apps, sc.cfg.get("apps", []))):
+            peers = [nw.peers[i] for i in ac.get("peers", [])]
+            any_ready = any(p.connection is not None and p.connection.state in PEER_READY_STATES and
+                            psocks.get(p.connection.ident) is not None and not psocks[p.connection.ident].closed for p in peers)
+            gt_ready = False
+            gt_any = False
+            for i in ac.get("peers", []):
+                nm = sc.cfg["peers"][i]["name"]
+                for sid, g in self.c.items():
+                    if g["peer"] == nm and self.live(g) and not fs_by_sid[sid].closed:
+                        gt_any = True
+                        if g["ce_ok"] and not g["dpr_in"] and not g["dpr_out"]:
+                            gt_ready = True
+                    if g["peer"] == nm and g["kind"] == "dialled" and self.open_for_node(g) and not fs_by_sid[sid].closed:
+                        gt_any = True
+            if gt_ready and not app.is_ready.is_set():
+                vs.append(("readiness:application-not-ready-although-a-configured-peer-has-a-ready-connection", f"application {ai}"))
+            if not gt_any and app.is_ready.is_set():
+                vs.append(("readiness:application-ready-although-none-of-its-peers-has-a-connection", f"application {ai}"))
+        return vs
+
+    def state(self):
+        return (tuple(sorted(self.had_connection)),
+                tuple(sorted((sid, g["kind"], g["peer"], g["identified"], g["ce_ok"], g["node_closed"] is not None, g["env_closed"] is not None,
+                              g["dpr_in"], g["dpr_out"], g["failed"], g["established"] is not None) for sid, g in self.c.items())))
